@@ -107,12 +107,12 @@ def pure_inputs(ctx):
     n_small = ctx.scale(4, 6)
     for d in M.small_strings(M.SMALL_ALPHABET, n_small):
         out.append(('small', d, len(d) <= ctx.scale(3, 5)))
-    for _ in range(ctx.scale(3000, 30000)):   # a sample of the longer ones
+    for _ in range(ctx.scale(3000, 10000)):   # a sample of the longer ones
         n = rng.randint(n_small + 1, n_small + 4)
         out.append(('small', bytes(rng.choice(M.SMALL_ALPHABET) for _ in range(n)), False))
-    for tail in M.small_strings(b'-a\n ', ctx.scale(5, 7)):
+    for tail in M.small_strings(b'-a\n ', ctx.scale(5, 6)):
         out.append(('multipart_small', MP_HEADER + tail, len(tail) <= 4))
-    for _ in range(ctx.scale(800, 20000)):
+    for _ in range(ctx.scale(800, 6000)):
         n = rng.randint(6, 12)
         out.append(('multipart_small',
                     MP_HEADER + bytes(rng.choice(b'--aa\n\n \r') for _ in range(n)), False))
@@ -125,14 +125,14 @@ def pure_inputs(ctx):
                        range(256) if full else [10, 11, 13, 32, 45]):
             k += 1
             out.append(('byte_sweep', d, k % 3 == 0))
-    for _ in range(ctx.scale(400, 8000)):
+    for _ in range(ctx.scale(400, 2500)):
         out.append(('generated', M.gen_message(rng), True))
-    for _ in range(ctx.scale(150, 3000)):
+    for _ in range(ctx.scale(150, 1000)):
         out.append(('raw', M.gen_raw(rng, 600), True))
-    for _ in range(ctx.scale(6, 120)):        # big: monitors only
+    for _ in range(ctx.scale(6, 60)):         # big: monitors only
         out.append(('raw_big', M.gen_raw(rng, 65536) if rng.random() < 0.5 else
                     bytes(rng.randrange(256) for _ in range(rng.randint(3000, 65536))), False))
-    for _ in range(ctx.scale(4, 60)):
+    for _ in range(ctx.scale(4, 30)):
         big = b''.join(M.gen_message(rng) for _ in range(rng.randint(20, 400)))[:65536]
         out.append(('generated_big', big, False))
     return out
@@ -187,7 +187,7 @@ def section_pure(ctx, coq) -> None:
             continue
         (tiny_parse if tiny else parse_cases).append(enc)
         (tiny_in if tiny else parse_in).append(d)
-        if fam in ('raw', 'generated') and len(lines_cases) < ctx.scale(300, 3000):
+        if fam in ('raw', 'generated') and len(lines_cases) < ctx.scale(300, 1500):
             lines_cases.append(M.enc_lines_case(d, obs['lines']))
             lines_in.append(d)
         if want_fetch:
@@ -211,7 +211,7 @@ def section_pure(ctx, coq) -> None:
                 ctx.disagreement('fetch_direct', {'input': d.hex()[:2000],
                                                   'unencodable': repr(exc)})
         # _find_parts on its own, with boundaries the message does not declare
-        if fam == 'generated' and tree['subs'] and len(parts_cases) < ctx.scale(150, 2000):
+        if fam == 'generated' and tree['subs'] and len(parts_cases) < ctx.scale(150, 800):
             from pymap.mime import MessageBody
             bnd = rng.choice([b'b', b'XX', b'a-b', b'--', b'c'])
             lines = obs['lines']
@@ -252,7 +252,7 @@ def section_literal(ctx, coq) -> None:
     rng = ctx.rng
     ns = list(range(0, 130)) + [999, 1000, 1001, 4095, 4096, 4097, 9999, 10000, 65535, 65536,
                                 99999, 100000, 1048576]
-    ns += [rng.randint(0, 200000) for _ in range(ctx.scale(100, 2000))]
+    ns += [rng.randint(0, 200000) for _ in range(ctx.scale(100, 600))]
     cases = []
     keep = []
     for n in ns:
@@ -290,17 +290,17 @@ def e2e_inputs(ctx, backend: str):
     vals = [0, 10, 13, 32, 45, 58, 255]
     swept = [d for base in BASES for d in sweep(base, vals, [10, 13, 32, 45])]
     rng.shuffle(swept)
-    for d in swept[:ctx.scale(120, 1500) if dict_b else ctx.scale(25, 200)]:
+    for d in swept[:ctx.scale(120, 500) if dict_b else ctx.scale(25, 100)]:
         out.append(('byte_sweep', d))
-    for _ in range(ctx.scale(220, 3000) if dict_b else ctx.scale(50, 400)):
+    for _ in range(ctx.scale(220, 1000) if dict_b else ctx.scale(50, 200)):
         # maildir: mostly LF-only messages, which stdlib mailbox gives back unchanged
         out.append(('generated', M.gen_message(rng, style=None if dict_b or rng.random() < 0.3
                                                else 'lf')))
-    for _ in range(ctx.scale(30, 300) if dict_b else ctx.scale(70, 600)):
+    for _ in range(ctx.scale(30, 150) if dict_b else ctx.scale(70, 300)):
         out.append(('clean_lf', M.gen_clean_lf(rng)))
-    for _ in range(ctx.scale(80, 1000) if dict_b else ctx.scale(20, 150)):
+    for _ in range(ctx.scale(80, 300) if dict_b else ctx.scale(20, 60)):
         out.append(('raw', M.gen_raw(rng, 600)))
-    for _ in range(ctx.scale(4, 60) if dict_b else ctx.scale(2, 10)):
+    for _ in range(ctx.scale(4, 30) if dict_b else ctx.scale(2, 6)):
         out.append(('raw_big', bytes(rng.randrange(256) for _ in range(rng.randint(3000, 65536)))))
     out.append(('raw_big', bytes(rng.choice(b'ab\r\n') for _ in range(65536))))
     return out
@@ -478,7 +478,7 @@ async def e2e_run(ctx, backend: str, inputs, coq_cases, coq_inputs):
                 e.close()
                 e = await M.E2E(backend).start()
                 e.copy_ok = copy_ok
-            with_coq = n_coq < ctx.scale(250, 3000) and fam != 'small'
+            with_coq = n_coq < ctx.scale(250, 1200) and fam != 'small'
             st = await one_message(ctx, e, d, fam, rng, coq_cases, coq_inputs, with_coq)
             n_coq = len(coq_cases)
             stats[st] = stats.get(st, 0) + 1
@@ -501,14 +501,16 @@ def section_e2e(ctx, backend: str, coq) -> None:
 # --------------------------------------------------------------------- run
 def run(ctx) -> None:
     ctx.rule = ('inputs from one PRNG (seed): every string over {a,SP,CR,LF,:,-} up to length '
-                '6 (7 thorough); a multipart header followed by every string over {-,a,LF,SP} up '
-                'to length 6 (8); every byte value at every position of three base messages; '
-                'grammar-generated messages (header/body, CRLF/LF/mixed line ends, NUL, 8-bit, '
-                'folded headers, missing or whitespace-only separator, no final newline, '
-                'multipart and message/rfc822 nested up to depth 4, 15% point-mutated); raw '
-                'random strings (0..600 octets for Coq, up to 64 KiB for the monitors). '
-                'non-trivial = non-empty input (direct level) / accepted by APPEND and fully '
-                'fetched (imap level); distinct = by (level, input)')
+                '4 plus 3000 sampled of length 5-8 (thorough: up to 6 plus 10000 sampled, and '
+                'every string of length 7 through the top-level monitor); a multipart header '
+                'followed by every string over {-,a,LF,SP} up to length 5 (6) plus a sample; '
+                'selected (thorough: all) byte values substituted/inserted at every position of '
+                'three base messages; grammar-generated messages (header/body, CRLF/LF/mixed line '
+                'ends, NUL, 8-bit, folded headers, missing or whitespace-only separator, no final '
+                'newline, multipart and message/rfc822 nested up to depth 4, 15% point-mutated); '
+                'clean LF-only messages (maildir); raw random strings (0..600 octets for Coq, up '
+                'to 64 KiB for the monitors). non-trivial = non-empty input (direct level) / '
+                'accepted by APPEND and fully fetched (imap level); distinct = by (level, input)')
     ctx.assumptions += [
         'stdlib email decides maintype/subtype/boundary of a Content-Type header; the model '
         'takes these decisions as data observed from the implementation',
